@@ -283,6 +283,8 @@ class Sim:
         self.ctx = ctx
         self.vecs = []       # [(real, model, id)]
         self.trs = []        # [(real, params model, constants model, id, cls)]
+        self.tkw = {}
+        self.fresh = {}
         self.nid = 0
         self.caller_bufs = []   # buffers the harness passed in (may scribble)
         self.changed = False
@@ -554,6 +556,21 @@ class Sim:
         cs = self.cs
         cls = cs.choice("cls", TRANSFORMS)
         kw = {}
+        if self.trs and cs.flip("same_as_existing", 45):
+            # a second instance built exactly like one that is already live
+            prev = self.trs[cs.draw("prev", len(self.trs))]
+            cls, kw = prev[4], dict(self.tkw.get(prev[3], {}))
+            via = cs.flip("get_transform", 50)
+            self.log.ev("tnew", cls, kw, via, "same_as_existing")
+            t = transform.get_transform(cls, **kw) if via else \
+                getattr(transform, cls)(**kw)
+            self.nid += 1
+            self.tkw[self.nid] = dict(kw)
+            self.trs.append((t, self.fresh_model(t, "params", cls, kw),
+                             self.fresh_model(t, "constants", cls, kw),
+                             self.nid, cls))
+            self.ctx.hit("probe.second_transform_with_same_constructor_args")
+            return
         if cls in ("Log", "BoxCox2", "BoxCox1lam", "BoxCox1nu", "BoxCox2sym",
                    "Reciprocal") and cs.flip("mininu", 50):
             kw["mininu"] = 10.0 ** cs.between("mininu.e", -10, 0)
@@ -569,8 +586,24 @@ class Sim:
         else:
             t = getattr(transform, cls)(**kw)
         self.nid += 1
-        self.trs.append((t, model_of(t.params), model_of(t.constants),
+        self.tkw[self.nid] = dict(kw)
+        self.trs.append((t, self.fresh_model(t, "params", cls, kw),
+                         self.fresh_model(t, "constants", cls, kw),
                          self.nid, cls))
+
+    def fresh_model(self, t, which, cls, kw):
+        """Model of a freshly constructed transform's vector.  The first
+        instance of a (class, constructor arguments) pair in a run defines what
+        a fresh instance looks like; every later instance built the same way
+        must start in that same state (a constructor must not hand out state
+        left by another instance)."""
+        key = (cls, tuple(sorted(kw.items())), which)
+        m = model_of(getattr(t, which))
+        ref = self.fresh.get(key)
+        if ref is None:
+            self.fresh[key] = m.copy()
+            return m
+        return ref.copy()
 
     def pick_tr(self):
         return self.trs[self.cs.draw("twhich", len(self.trs))]
@@ -750,3 +783,10 @@ def run(cs, log, ctx):
                 sim.check_all(kind)
     if sim.changed and sim.compared_after_change:
         ctx.hit("nontrivial")
+
+
+def warmup():
+    import pandas  # noqa: F401
+    import scipy.stats  # noqa: F401
+    from hydrodiy.data import containers  # noqa: F401
+    from hydrodiy.stat import transform, sutils  # noqa: F401
